@@ -99,6 +99,10 @@ func goMapDefineOwnProperty(obj *object, name string, descriptor property, throw
 		// An accessor descriptor, or a descriptor without a value.
 		return obj.runtime.typeErrorResult(throw)
 	}
+	if goObj.value.IsNil() {
+		// Nothing can be stored in a nil map.
+		return obj.runtime.typeErrorResult(throw)
+	}
 	goObj.value.SetMapIndex(goObj.toKey(name), goObj.toValue(value))
 	return true
 }
